@@ -36,6 +36,7 @@ run_one() {
     fi
   else
     if grep -q "^SCAN: 0 not discharged" $root/$id.out; then echo "ok   $id silent"
+    elif grep -q "^$id " /verif/refactors/KNOWN-ALARMS 2>/dev/null; then echo "ok   $id known alarms (refactors/KNOWN-ALARMS): $(grep -E "^(VIOLATED|UNDECIDED)" $root/$id.out | sed 's/.*\[\([A-Z0-9-]*\)\].*/\1/' | sort -u | tr '\n' ' ')"
     else echo "FAIL $id: false alarms:"; grep -E "^(VIOLATED|UNDECIDED|LOAD-ERROR|ERROR)" $root/$id.out | cut -c1-330; fi
   fi
   git -C /repo worktree remove --force $wt >/dev/null 2>&1
